@@ -24,11 +24,15 @@ def _find_inverter(repo):
     raise AnalysisError("write_inference: the inversion loop was not found")
 
 
-def _classify_arg(node, idx_name, idx_val, result_name):
-    """-> 'v' (the running result), 'o' (the other operand), 'x' (the operand being solved), or None."""
+def _classify_arg(node, idx_name, idx_val, result_name, cursor=None):
+    """-> 'v' (the running result), 'o' (the other operand), 'x' (the operand being solved), or None.
+    `cursor` is the variable that walks down the expression (re-bound to `<cursor>.function.args[index]` each step): the
+    operands of the current level are *its* args; the args of any other expression (the outermost one) are not."""
     if isinstance(node, ast.Name) and node.id == result_name:
         return "v"
     if isinstance(node, ast.Subscript) and ast.unparse(node.value).endswith(".function.args"):
+        if cursor is not None and ast.unparse(node.value) != f"{cursor}.function.args":
+            return None
         s = node.slice
         from .tokenizer_rules import linear
         lf = linear(s, {"index": lambda n: isinstance(n, ast.Name) and n.id == idx_name})
@@ -55,6 +59,13 @@ def inverse(repo):
     if result_name is None:
         raise AnalysisError("write_inference: inverse construction not found")
 
+    cursor = None
+    for n in ast.walk(loop):
+        if isinstance(n, ast.Assign) and isinstance(n.targets[0], ast.Name) and isinstance(n.value, ast.Subscript) \
+                and ast.unparse(n.value.value) == f"{n.targets[0].id}.function.args":
+            cursor = n.targets[0].id
+    if cursor is None:
+        raise AnalysisError("write_inference: the variable walking down the expression was not found")
     constructions = []  # (forward op, index value, inverse op, [arg classes], line)
 
     def walk(body, fwd, positions):
@@ -98,7 +109,7 @@ def inverse(repo):
                             WI, st.lineno, f.name)
                     continue
                 for pos in positions:
-                    cls = [_classify_arg(a, idx, pos, result_name) for a in args]
+                    cls = [_classify_arg(a, idx, pos, result_name, cursor) for a in args]
                     constructions.append((fwd, pos, inv, cls, st.lineno))
 
     walk(loop.body, None, [0, 1])
@@ -219,12 +230,21 @@ def vwrite(repo, templates):
 
 
 def control(repo):
+    """Overlay: the first inverse construction that uses SUBTRACTION is turned into an ADDITION (AST position, not a text
+    fragment, so the control keeps working when the operands are spelled differently)."""
     src = repo.read(WI)
-    a = "function=ir_data.FunctionMapping.SUBTRACTION,\n                    args=[\n                        result,\n                        subexpression.function.args[1 - index],"
-    if a not in src:
+    m, f, loop = _find_inverter(repo)
+    target = None
+    for n in ast.walk(loop):
+        if isinstance(n, ast.keyword) and n.arg == "function" and (dotted_name(n.value) or "").endswith("FunctionMapping.SUBTRACTION"):
+            if target is None or (n.value.lineno, n.value.col_offset) < (target.lineno, target.col_offset):
+                target = n.value
+    if target is None:
         return False
-    new = src.replace(a, a.replace("SUBTRACTION", "ADDITION"), 1)
-    r2 = Repo(repo.root, overlay={WI: new})
+    lines = src.split("\n")
+    ln = lines[target.lineno - 1]
+    lines[target.lineno - 1] = ln[:target.col_offset] + ast.unparse(target).replace("SUBTRACTION", "ADDITION") + ln[target.end_col_offset:]
+    r2 = Repo(repo.root, overlay={WI: "\n".join(lines)})
     return bool(inverse(r2).findings)
 
 
